@@ -60,6 +60,13 @@ func main() {
 			os.Exit(1)
 		}
 		props.DebugStale(&props.Ctx{P: prog})
+	case "flags":
+		prog, err := core.Load(core.RepoDir(), "")
+		if err != nil {
+			fmt.Println(err)
+			os.Exit(1)
+		}
+		props.DebugLoopFlags(prog)
 	case "ackjoin":
 		prog, err := core.Load(core.RepoDir(), "")
 		if err != nil {
